@@ -213,5 +213,45 @@ pub fn run(tier: Tier) {
             out
         },
     );
+    // the in-place path: approximating a number that already carries a recorded error
+    let cells = 10_000u64;
+    sweep("C12 try_approx on fractions that carry an error: cells x 3 first approximations x 8 accuracies x 6 denominators x 2 limits", cells, |i| json!({"try_approx cell": i}), |idx, local| {
+        let mut out = Vec::new();
+        for whole in [0.0, 1.0, 3.0] {
+            let value = whole + (idx as f64 + 0.37) / 1e4;
+            for (a1, d1) in [(0.05f32, 4u8), (0.5, 16), (0.01, 8)] {
+                let Some(first) = Number::new_approx(value, a1, d1, u32::MAX) else { continue };
+                for acc in ACCS {
+                    for max_den in [1u8, 2, 3, 4, 8, 16] {
+                        for lim in [0u32, u32::MAX] {
+                            local.evaluations += 1;
+                            let mut n = first;
+                            let before = n.value();
+                            let changed = n.try_approx(acc, max_den, lim);
+                            let after = n.value();
+                            if !((after - before).abs() <= before.abs() * f64::EPSILON * 8.0) {
+                                out.push(Violation::new(
+                                    "try_approx changes the exact value",
+                                    format!("{first:?} (value {before:?}).try_approx({acc}, {max_den}, {lim}) = {changed} -> {n:?} (value {after:?})"),
+                                    json!({"value_bits": value.to_bits(), "first": [a1, d1], "accuracy": acc, "max_den": max_den, "max_whole": lim}),
+                                ));
+                                return out;
+                            }
+                            if changed {
+                                local.nontrivial += 1;
+                                if let Number::Fraction { num, den, err, whole } = n {
+                                    if num != 0 && (den > max_den as u32 || !DENOMS.contains(&den)) || whole > lim || !(err.abs() <= acc as f64 * before * (1.0 + 1e-12)) {
+                                        out.push(Violation::new("try_approx result outside the requested limits", format!("{first:?}.try_approx({acc}, {max_den}, {lim}) -> {n:?}"), json!({"value_bits": value.to_bits(), "accuracy": acc, "max_den": max_den, "max_whole": lim})));
+                                        return out;
+                                    }
+                                }
+                            }
+                        }
+                    }
+                }
+            }
+        }
+        out
+    });
     c.note("distinct_nontrivial counts grid points (value x accuracy x 7 representative denominators, no whole limit) for which a Fraction was returned; every grid point is distinct by construction");
 }
